@@ -80,6 +80,50 @@ def _is_initial_literal(ctx: Ctx, a: ast.AST, fn) -> bool:
     return isinstance(a, ast.Constant) and a.value == "__initial__"
 
 
+def rule_identity(ctx: Ctx):
+    """C11.who: what makes a trigger THE initial activation is that start() queued it - not the name of its event, which
+    `sm.send("__initial__")` can produce at any time (and would re-enter the initial state from any state)."""
+    from ..kernel import initial_test
+
+    rep, k = ctx.rep, ctx.k
+    n = 0
+    attrs = set()
+    for eng in k.engines:
+        tr = k.engine_fn(eng, "_trigger")
+        seen = set()
+        for p in ctx.paths(tr, exc_edges="none"):
+            for b in p.of("branch"):
+                if initial_test(b.term) is None or id(b.node) in seen:
+                    continue
+                seen.add(id(b.node))
+                n += 1
+                sides = [b.term.left, b.term.comparators[0]]
+                by_name = any(isinstance(c, ast.Constant) and c.value == "__initial__" for c in sides)
+                ident = [c for c in sides if isinstance(c, ast.Attribute) and isinstance(c.value, ast.Name) and c.value.id == "self"]
+                rep.check(not by_name and bool(ident) and isinstance(b.term.ops[0], (ast.Is, ast.IsNot)), "C11.who", b.loc(),
+                          f"{eng.name}: the initial activation is recognised by the identity of the trigger start() queued (an event merely "
+                          "named like it is an ordinary event)", tr.key, norm_stmt(b.node))
+                attrs |= {c.attr for c in ident}
+        if not seen:
+            rep.violation("C11.who", tr.loc(), f"{eng.name}._trigger never asks whether the trigger is the initial activation start() queued "
+                          "(the machine is never activated through this engine, or any event is taken for the activation)", tr.key,
+                          "no test of the trigger against the remembered initial trigger")
+    rep.floor("C11.who", "initial-trigger tests in _trigger", n, 1)
+    st = ctx.fn("BaseEngine.start")
+    ok = False
+    for p in ctx.paths(st, inline=None, exc_edges="none"):
+        puts = [e for e in p.calls() if k.calls_method(e, "put")]
+        stores = {e.x.get("attr"): show(e.x["value"]) for e in p.of("store") if show(e.term.value) == "self"}
+        if puts:
+            arg = show(puts[0].term.args[0]) if puts[0].term.args else None
+            # the queued object is the stored one: the same term, or the attribute read back after the store
+            ok = bool(attrs) and all(a in stores and arg in (stores[a], f"self.{a}") for a in attrs)
+            rep.check(ok, "C11.who", puts[0].loc(), "start() remembers exactly the trigger it queues", st.key,
+                      f"put({arg}); remembered: {stores}")
+    if attrs and not ok:
+        rep.violation("C11.who", st.loc(), "start() does not remember the trigger it queues", st.key, "no store of the queued trigger")
+
+
 def rule_who(ctx: Ctx):
     rep, k = ctx.rep, ctx.k
     g = callgraph(ctx)
@@ -179,4 +223,4 @@ def rule_target(ctx: Ctx):
         rep.check("self.sm._get_initial_state()" in v, "C11.target", it.loc(), "initial activation enters the state chosen by _get_initial_state", it.key, f"return {v}")
 
 
-RULES = [rule_guard, rule_who, rule_constructor, rule_reactivation, rule_sentinel, rule_target, rule_model]
+RULES = [rule_identity, rule_guard, rule_who, rule_constructor, rule_reactivation, rule_sentinel, rule_target, rule_model]
